@@ -30,6 +30,9 @@ ENGINE = "E1"
 FUNCTIONS = ["ioflo.aio.proto.exchanging.Exchange.__init__", "Exchange.process", "Exchange.send", "Exchange.transmit",
              "Exchange.fail", "Exchange.finish", "Exchanger.start", "Exchangent.__init__",
              "ioflo.aid.timing.StoreTimer.{__init__,restart,getExpired}"]
+TECHNIQUE = "E1: symbolic execution of the real Exchange/Exchanger over a recording stack double; stamps, timeout and redo timeout symbolic integers"
+LEVEL_TEXT = "bounded model checking: constructor grid {absent,given}^2 x [0,8]^2; schedules of 4/6 process() calls (3/4 with new messages) with symbolic advances in [0,40], settings in [0,64]"
+LEVEL_NOTE = "exact-time regime; redo interval accepted on either reference (last retransmission or no-time-lost grid)"
 ASSUMPTIONS = [
     "stack is a double (name, stamper, transmit recorder); device is a double (name, ha); stamper is a real Stamper whose .stamp is assigned integers",
     "exact-time regime: stamps, timeout and redo timeout are integers (class defaults 2.0 / 0.5 are dyadic floats, exact); "
